@@ -40,7 +40,9 @@ func NewWithConfig(ctx context.Context, cfg wazero.RuntimeConfig, mc wazero.Modu
 		return nil, err
 	}
 	bin := proxy.NewModuleBinary(wasi_snapshot_preview1.ModuleName, wasiCompiled)
-	mod, err := rt.InstantiateWithConfig(ctx, bin, mc.WithName("guest"))
+	// the caller's ModuleConfig VALUE is used as it is (no derived copy): reusing one value for several
+	// instantiations is part of what is tested
+	mod, err := rt.InstantiateWithConfig(ctx, bin, mc)
 	if err != nil {
 		return nil, err
 	}
